@@ -33,7 +33,7 @@ INJECT_ALPHABET = ("nop", "eof", "reset", "unreach", "garbage", "badcrc", "trunc
 
 
 def bounds(tier):
-    return {"script_depth": {"quick": {"full": 3, "wfault": 4, "rx": 3, "subs": 3, "enc": 3}, "thorough": {"full": 4, "wfault": 6, "rx": 5, "subs": 5, "enc": 5}}[tier],
+    return {"script_depth": {"quick": {"full": 3, "wfault": 4, "rx": 3, "subs": 3, "enc": 3, "halfopen": 3}, "thorough": {"full": 4, "wfault": 6, "rx": 5, "subs": 5, "enc": 5, "halfopen": 4}}[tier],
             "connect_alphabet": CONNECT_ALPHABET, "inject_alphabets": ALPHABETS,
             "user_send_instant": "[0,4] symbolic", "connect_latency": "(0,3] symbolic", "horizon_after_script_s": 40}
 
@@ -45,12 +45,15 @@ ALPHABETS = {
     "subs": ("nop", "eof", "reset", "werr", "subraise", "connsubraise"),
     "turns": ("eof", "reset", "unreach", "garbage", "truncated", "werr", "badmsg", "subraise", "connsubraise"),
     "enc": ("nop", "eof", "werr", "badmsg", "badmsg2"),
+    # halfopen: the connection goes dead without a word (every later write on it fails, nothing arrives on it any more) and a
+    # command that may not be repeated (no retries) is the first thing written to it
+    "halfopen": ("nop", "halfopen", "werr", "reset"),
 }
 
 
 def instances(tier):
     out = []
-    plan = {"quick": {"full": 3, "wfault": 4, "rx": 3, "subs": 3, "enc": 3}, "thorough": {"full": 4, "wfault": 6, "rx": 5, "subs": 5, "enc": 5}}[tier]
+    plan = {"quick": {"full": 3, "wfault": 4, "rx": 3, "subs": 3, "enc": 3, "halfopen": 3}, "thorough": {"full": 4, "wfault": 6, "rx": 5, "subs": 5, "enc": 5, "halfopen": 4}}[tier]
     for g in (4, 5):
         for alph, d in plan.items():
             lo = 1 if alph == "full" else d
@@ -210,7 +213,11 @@ def run(ctx, p):
 
         fail_drain = {"on": False}
 
+        dead = set()
+
         def on_drain(conn, n):
+            if conn.index in dead:
+                return ConnectionResetError("write on a half-open connection")
             if fail_drain["on"]:
                 fail_drain["on"] = False
                 return ConnectionResetError("write fault")
@@ -264,6 +271,10 @@ def run(ctx, p):
                     rig.spawn(user_send(_unencodable_other(g), S.RetryPolicy(1, 5.0)))
                 elif a == "werr":
                     fail_drain["on"] = True
+                elif a == "halfopen":
+                    if live:
+                        dead.add(c.index)
+                        rig.spawn(user_send(cmd_entry[1](7), S.RetryPolicy(0, 5.0)))
                 elif a == "connsubraise":
                     state["conn_raise_next"] = True
                 elif not live:
@@ -324,7 +335,7 @@ def run(ctx, p):
         ctx.check(connected, "heals.connected", detail=detail)
         n_before = len([m for m in rig.received])
         w_before = sum(len(x.writes) for x in rig.net.conns)
-        if c is not None and not c.peer_closed:
+        if c is not None and not c.peer_closed and c.index not in dead:
             c.send(bytes(probe_frame))
         rig.spawn(user_send(cmd_entry[1](6), S.RetryPolicy(0, 10.0)))
         rig.loop.vt_run(t_script_end + 40.0)
